@@ -20,14 +20,19 @@ Check @stream_ind.
 
 (** the direct search in turn returns the minimax value and a sound PV (C03) *)
 
-(** under a time control the hard limit granted to a move never exceeds the time left on the clock *)
+(** under a time control the hard limit granted to a move never exceeds the time left on the clock -
+    for every moves-to-go value (the hypothesis "moves < 2^31" that this theorem used to carry pointed at
+    a genuine defect: moves-to-go 2^63 - 1 made the divisor 0 and the search goroutine panicked; repaired
+    by the cap in TimeControl.Limits, see [limits_legacy_divisor_zero], [limits_divisor_pos]) *)
 Theorem C15_limits_hard_le_clock : forall white black moves c,
-  (0 <= white <= 9223372036854775807)%Z -> (0 <= black <= 9223372036854775807)%Z -> (0 <= moves < 2147483648)%Z ->
+  (0 <= white <= 9223372036854775807)%Z -> (0 <= black <= 9223372036854775807)%Z ->
   let '(soft, hard) := limits white black moves c in
   let remaining := if (c =? 1)%Z then black else white in
   (0 <= soft /\ soft <= hard /\ hard <= remaining)%Z.
 Proof. exact limits_hard_le_clock. Qed.
 Print Assumptions C15_limits_hard_le_clock.
+Check limits_divisor_pos.
+Check limits_legacy_divisor_zero.
 
 (** tie: Limits equals the values dumped from the running code on a grid of clocks / moves-to-go *)
 Definition C15_impl := (impl_limits, impl_tt_val).
